@@ -61,6 +61,11 @@ pub fn rank_visits_reset() {
     RANK_VISITS[7].store(0, Ordering::Relaxed);
 }
 
+/// Returns the graph a builder has accumulated so far.
+pub fn builder_graph<F>(builder: &crate::FnGraphBuilder<F>) -> &Dag<F, Edge, FnIdInner> {
+    crate::fn_graph_builder::verif_builder_graph(builder)
+}
+
 /// Runs the rank calculation stage of `build()`.
 pub fn rank_calc<F>(graph: &Dag<F, Edge, FnIdInner>) -> Vec<Rank> {
     crate::fn_graph_builder::verif_rank_calc(graph)
